@@ -189,7 +189,7 @@ class IPv4FlowSpec(NLRI):
                 1: 0x00,
                 2: 0x10,
                 4: 0x20,
-                6: 0x30
+                8: 0x30
             },
             'RES': 0x00,
             'LT': 0x04,
@@ -282,6 +282,11 @@ class IPv4FlowSpec(NLRI):
                 if len(hex_str) % 2 == 1:
                     hex_str = '0' + hex_str
                 value_hex = bytearray.fromhex(hex_str)
+                # an operand is 1, 2, 4 or 8 octets long (RFC 5575 section 4)
+                for size in (1, 2, 4, 8):
+                    if len(value_hex) <= size:
+                        value_hex = bytearray(size - len(value_hex)) + value_hex
+                        break
                 flag_dict['LEN'] = len(value_hex)
                 opt_flag_bin = cls.construct_operator_flag(flag_dict)
                 data_bin += struct.pack('!B', opt_flag_bin)
